@@ -20,6 +20,16 @@ CLAIMED = {
    text="Decides that the program hands SQLite exactly one transaction per block containing all and only that block's writes plus the height record: every write reachable from SyncBlock/NullifyBurnAddress/InsertSynced runs on the caller's *sql.Tx (45+ statements, QueryAble arguments resolved per call site); in DBlockSync the order block -> InsertSynced -> Commit holds by dominance, Commit is confined to nil-error branches, every error branch rolls back, no path leaks the open transaction, the in-memory height can never get ahead of a failed block, the height applied is synced+1; Commit/Rollback exist nowhere else and the *sql.Tx never escapes; pn_sync_version is keyed by height and written by plain INSERT; start-up resumes from the persisted height. Every crash point inside a block is covered at once because all of them fall inside that one transaction. What SQLite does at a kill is trusted, not decided.",
    note="Trusted: SQLite atomic commit/rollback, database/sql transaction semantics, go/ssa. Reads through the connection pool inside a block are listed in the evidence (they see committed state) and do not affect atomicity.",
    ref="DESIGN.md §2.7 E3/E4, §4 C02"),
+ "C03": dict(
+   technique="SSA dominance of the debit statement by the balance comparison + schema rule over the SQL catalogue (CHECK per ticker column) + abstract decision table of the funds checks under the orderings amount ? balance + CFG rule 'no write before a rejection' + error-value flow of the mid-batch failure + guard rule for every unsigned subtraction",
+   text="Decides the guards without which an overdraft or a half-applied batch is possible: the debit UPDATE in SubFromBalance is confined to balance >= value on the pending balance of the same address and ticker; all 62 ticker columns of pn_addresses and both snapshot tables (and the migrations) carry CHECK(col >= 0); both passes of applyTransactionBatch reject iff amount > balance (equal passes) for every ordering; no database write can precede any rejection return in applyTransactionBatch; a debit failure inside recordBatch is turned into a fresh unwrapped error and IsRejectedTx classifies by identity, so the block fails instead of committing a half-applied batch; every unsigned subtraction on the consensus path (20 sites) is dominated by the comparison that makes it safe or carries an audited reason; Transaction.Validate bounds each transfer by the remaining input without wrap-around and requires a zero remainder. Does not decide that the in-memory simulation matches the database for every in-batch interleaving.",
+   note="Trusted: SQLite CHECK constraints, go/ssa. Three subtractions are discharged by audited reasons listed in the checker (dust = Bank - totalPaid; height - j; AveragePeriod - numberMissing()).",
+   ref="DESIGN.md §4 C03"),
+ "C04": dict(
+   technique="who-may-write over the SQL catalogue + call-graph reachability avoiding the enumerated event roots + SSA provenance of debit/credit arguments (same transaction, same transfer element, same Convert result) + phi/era analysis of the burn exemption + shared C03 rules",
+   text="Decides the structure of supply conservation: only the AddToBalance upsert (balance = balance + excluded) and the guarded SubFromBalance UPDATE write pn_addresses; every mutator call site (14) lies below one of the ten enumerated protocol-event functions on the sync path and is unreachable from API handlers and CLI; in recordBatch one debit of tx.Input per transaction, per transfer one credit of the same ticker with that transfer's own address and amount, conversion credit = the Convert result recorded in history, credited once to the sender in tx.Conversion, the two credit kinds being alternative branches; input = sum of transfers without wrap (shared with C03) and a mid-batch failure fails the block. Reports two known genuine legacy-era defects: the burn exemption compares with the zero address before 2.0.2, and the PEG-bank second pass has no PEG-request filter. Does not decide per-block numeric supply deltas.",
+   note="Trusted: go/ssa, module call graph, SQL catalogue.",
+   ref="DESIGN.md §4 C04"),
  "C07": dict(
    technique="abstract decision tables (SCCP with a symbolic order oracle over spot/average orderings; HasConversions scenarios) + SSA provenance/dominance (reaching definitions of the rates argument, holding window induction variable, Mul-before-Div dataflow, same-transaction roots of Convert inputs) + SQL catalogue table-reference rule",
    text="Decides timing and rate selection structurally: a batch with conversions is only ever placed in holding on arrival and a batch without is applied with nil rates; the rates given to the holding executor are SelectPendingRates of the executing block's own height (other reaching definitions enumerated), rate queries read pn_rate only; held batches are scanned for [last rated height, current) stepped by one with the averages of that last rated height. Decides the formula's shape: for all 27 (era x ordering) cells the source rate is fromRate before PIP-10 and min(fromRate, fromAvg) from it, the destination toRate resp. max(toRate, toAvg); result = Div(Mul(amount, source), destination) on big.Int with an IsInt64 guard; every Convert call site gets the executing height and takes amount and rate keys from one and the same transaction. Does not decide floor(a*r/s) over the numeric range (math/big trusted) nor exactly-once over arbitrary block patterns (C06).",
